@@ -86,6 +86,12 @@ def _build(kind, project, res, off, extra, case):
     other = pyfiles[extra % len(pyfiles)] if pyfiles else res
     if kind == "move_method":
         return lambda: move.create_move(project, res, off).get_changes("helper", "moved_meth")
+    if kind == "module_to_package_outside":
+        # the resource of a module that lives OUTSIDE the project, as rope itself hands it out
+        outside_res = project.find_module("outside_mod")
+        return lambda: ModuleToPackage(project, outside_res).get_changes()
+    if kind == "inline_outside_only_current":
+        return lambda: inline.create_inline(project, res, off).get_changes(remove=False, only_current=True)
     if kind == "rename":
         return lambda: Rename(project, res, off).get_changes("zz_fresh")
     if kind == "rename_restricted":
@@ -155,7 +161,7 @@ def evaluate(case, env):
     # out-of-project module that defines names of the identifier pool and is imported by main through python_path
     names = projgen.POOL
     outside_src = "".join("%s = %d\n" % (n, i) for i, n in enumerate(names[:5])) + "def outside_fn(alpha, beta=2):\n    return alpha + beta\nclass OutsideCls:\n    gamma = 1\n"
-    files["main.py"] = files["main.py"] + "import outside_mod\nprint(outside_mod.alpha, outside_mod.outside_fn(1))\nimport outside_pkg\nprint(outside_pkg.alpha)\n"
+    files["main.py"] = files["main.py"] + "import outside_mod\nprint(outside_mod.alpha, outside_mod.outside_fn(1))\nimport outside_pkg\nprint(outside_pkg.alpha)\nimport sys\nprint(sys.maxsize > 0)\n"
     # a class whose attribute holds an instance of an OUT-OF-PROJECT class: MoveMethod towards it must stay inside the project
     if not case.get("without_mover"):  # (replays recorded before this fixture existed carry without_mover)
         files["mover.py"] = "import outside_mod\nclass Owner:\n    def __init__(self):\n        self.helper = outside_mod.OutsideCls()\n        self.k = 2\n    def meth(self, x):\n        return x + self.k\n"
@@ -183,6 +189,9 @@ def evaluate(case, env):
         paths = sorted(case["files"])
         # two fixed requests at the end: rename the out-of-project module / package from its import in main.py
         fixed = ([] if case.get("without_mover") else [("move_method", "mover.py", files["mover.py"].index("meth"), 0, 0)]) + [
+            ("inline_outside_only_current", "main.py", files["main.py"].rindex("outside_fn"), 0, 0),
+            ("module_to_package_outside", "main.py", 0, 0, 0),
+            ("rename", "main.py", files["main.py"].rindex("sys"), 0, 0),
             ("rename", "main.py", files["main.py"].rindex("outside_mod"), 0, 0),
             ("rename", "main.py", files["main.py"].rindex("outside_pkg"), 0, 0),
         ]
